@@ -66,7 +66,7 @@ func (e *Exec) builtin(fr *Frame, st *BState, x *ssa.Call, name string, args []S
 			return &Scalar{T: a.Len, Ty: x.Type()}
 		case *Scalar:
 			if a.T.Sort == SStr {
-				return &Scalar{T: app(SInt, "str.len", a.T), Ty: x.Type()}
+				return &Scalar{T: e.strLen(a.T), Ty: x.Type()}
 			}
 		}
 	case "cap":
@@ -271,6 +271,23 @@ func init() {
 		// bits(f) as an Int in [0, 2^64): injective on non-NaN floats, and ±0 differ
 		r := ufun("ext.math.Float64bits", []string{SF64}, SInt, f)
 		return &Scalar{T: r, Ty: x.Type()}
+	}
+	// ristretto cache used as a memo table: the data-structure invariant "every stored value has dynamic type
+	// cachetag(c)" is established by NewCache (empty), preserved by Set (obligation) and used by Get.
+	cacheTag := func(c SV) *Term {
+		return ufun("ghost.cachetag", []string{SInt}, SInt, c.(*PtrV).Addr)
+	}
+	externs["(*github.com/dgraph-io/ristretto.Cache).Get"] = func(e *Exec, st *BState, x *ssa.Call, args []SV) SV {
+		ok := e.fresh("cache.ok", SBool)
+		tup := x.Type().(*types.Tuple)
+		v := e.freshSV(tup.At(0).Type(), "cache.val", st.reach, false).(*IfaceV)
+		e.assume(implies(ok, eq(v.Tag, cacheTag(args[0]))))
+		e.assume(and(le(intLit(0), v.Ref), lt(v.Ref, e.frontier(st))))
+		return &TupleV{Elems: []SV{v, boolSV(ok)}}
+	}
+	externs["(*github.com/dgraph-io/ristretto.Cache).Set"] = func(e *Exec, st *BState, x *ssa.Call, args []SV) SV {
+		e.oblige(st, "nopanic.extern.cache.valuetype", x.Pos(), eq(args[2].(*IfaceV).Tag, cacheTag(args[0])))
+		return boolSV(e.fresh("cache.set", SBool))
 	}
 	// time model: (ns, aux)
 	tm := func(ns, aux *Term, t types.Type) SV {
